@@ -744,22 +744,19 @@ impl PartialOrd for Entry {
     fn partial_cmp(&self, other: &Self) -> Option<std::cmp::Ordering> {
         let mut rels_a = self.relations();
         let mut rels_b = other.relations();
-        while let (Some(a), Some(b)) = (rels_a.next(), rels_b.next()) {
-            match a.cmp(&b) {
-                std::cmp::Ordering::Equal => continue,
-                x => return Some(x),
+        loop {
+            // (a `while let` on the pair would consume one alternative too
+            // many of the longer entry before looking at what is left)
+            match (rels_a.next(), rels_b.next()) {
+                (Some(a), Some(b)) => match a.cmp(&b) {
+                    std::cmp::Ordering::Equal => continue,
+                    x => return Some(x),
+                },
+                (Some(_), None) => return Some(std::cmp::Ordering::Greater),
+                (None, Some(_)) => return Some(std::cmp::Ordering::Less),
+                (None, None) => return Some(std::cmp::Ordering::Equal),
             }
         }
-
-        if rels_a.next().is_some() {
-            return Some(std::cmp::Ordering::Greater);
-        }
-
-        if rels_b.next().is_some() {
-            return Some(std::cmp::Ordering::Less);
-        }
-
-        Some(std::cmp::Ordering::Equal)
     }
 }
 
